@@ -48,7 +48,7 @@ def run(facts, res):
                 if c.name in ("insert", "push"):
                     adds += 1
         res.instance("M1", "merge_arrays: %d insert/push sites on the destination, no removing call" % adds, ma.loc())
-        res.floor("M1", "insert/push sites on the merge destination (positive control)", adds, 3)
+        res.floor("M1", "insert/push sites on the merge destination (positive control)", adds, 1)
 
         # ---------------------------------------------------------------- M2
         cfg = cfg_of(ma)
